@@ -123,12 +123,23 @@ func elfCase(raw json.RawMessage, c *ecase, idx int) {
 		rev[i], rev[j] = rev[j], rev[i]
 	}
 	orders = append(orders, rev)
+	orders = append(orders, nil) // third pass: a fresh ObjFile asked only about addresses just outside the mapping
 	for oi, order := range orders {
 		bu := &binutils.Binutils{}
 		f, err := bu.Open(path, c.MapStart+shift, c.MapLimit+shift, c.MapOff, "")
 		if err != nil {
 			run.Violate("elf", "open-error", err.Error(), raw, nil)
 			return
+		}
+		if oi == 2 {
+			// an address outside [start, limit) is refused, not translated with some neighbouring segment's base
+			// (asked on an ObjFile of their own: the real code decides the base once, from the first address it
+			// is asked about, and remembers a refusal as well - see DESIGN 12.13)
+			for _, out := range []uint64{c.MapLimit + shift, c.MapStart + shift - 1} {
+				if got, err := f.ObjAddr(out); err == nil {
+					run.Violate("elf", sigOf(c, "outside-accepted"), fmt.Sprintf("ObjAddr(%#x) = %#x for a mapping [%#x, %#x): the address is outside the mapping", out, got, c.MapStart+shift, c.MapLimit+shift), raw, nil)
+				}
+			}
 		}
 		for _, a := range order {
 			got, err := f.ObjAddr(a.X + shift)
